@@ -317,6 +317,13 @@ func harnessC01() {
 	if err != nil {
 		vCover("rejected")
 		vAssert(p.started == 0 || p.killed >= 1, "C05: a failed start kills the launched plugin")
+		// the refusal is final: nothing the client reports afterwards treats the line as accepted
+		started := p.started
+		a2, e2 := c.Start()
+		vAssert(e2 != nil && a2 == nil, "C01/O5: a refused line stays refused (a second Start does not report success)")
+		vAssert(c.Protocol() == ProtocolInvalid, "C01/O5: no protocol is reported for a refused line")
+		vAssert(c.ReattachConfig() == nil, "C01/O5: no reattach record for a refused plugin")
+		vAssert(p.started == started, "C19: the plugin is not launched again after a failed Start")
 		vDone()
 	}
 	vCover("accepted")
